@@ -11,7 +11,7 @@ Definition ptag (i : N) (r : resp) : Prop := tagged i (rs_data r).
    PID of the first part, the message count of the last part *)
 Definition meta_ok (rs : resp) (parts : list resp) : Prop :=
   Forall (fun r => rs_src r = rs_src rs /\ rs_cc r = rs_cc rs) parts /\
-  (forall f, hd_error parts = Some f -> rs_pid rs = rs_pid f) /\
+  (forall f, hd_error parts = Some f -> rs_hdr rs = rs_hdr f) /\
   (forall l, hd_error (rev parts) = Some l -> rs_mc rs = rs_mc l).
 
 Definition resp_ok (i : N) (rs : resp) (parts : list resp) : Prop :=
@@ -46,7 +46,7 @@ Qed.
 Lemma combine_some a b c : combine a b = Some c ->
   rs_data c = rs_data a ++ rs_data b /\ len (rs_data c) <= MAX_OVERFLOW_SIZE /\ rs_type c = RDM_ACK /\
   rs_src c = rs_src a /\ rs_src b = rs_src a /\ rs_cc c = rs_cc a /\ rs_cc b = rs_cc a /\
-  rs_pid c = rs_pid a /\ rs_mc c = rs_mc b /\
+  rs_hdr c = rs_hdr a /\ rs_mc c = rs_mc b /\
   (rs_cc c = GET_COMMAND_RESPONSE \/ rs_cc c = SET_COMMAND_RESPONSE).
 Proof.
   unfold combine. intros H.
